@@ -665,3 +665,110 @@ Example ex_accepts_failed_start :
   /\ (exists n, accepts_red UDP [StInvoke 0; SFailStart; SdInvoke 1; SdReturn 1 ResNotStarted; StInvoke 2; Notify] = inr (Some n))
   /\ accepts UDP [StInvoke 0; SFailStart; SdInvoke 1; SdReturn 1 ResNil] = inl 3.
 Proof. vm_compute. repeat split; eexists; reflexivity. Qed.
+
+(* ------------------------------------------------- lives of one Server value *)
+(* a life that is over has left nothing behind: the next start (Server.init)
+   begins from the initial state without losing anything *)
+Lemma epoch_over_inv s :
+  epoch_over s = true ->
+  ph s = Stopping /\ (exists v, serve s = SReturned v) /\
+  (forall j p, In (j, p) (sds s) -> exists r, p = SdDone r) /\
+  (forall i p, In (i, p) (sts s) -> p = StServing \/ p = StDone).
+Proof.
+  unfold epoch_over. intros H.
+  apply andb_prop in H. destruct H as [H Hst]. apply andb_prop in H. destruct H as [H Hsd].
+  destruct (ph s) eqn:Ep; try discriminate. destruct (serve s) eqn:Es; try discriminate.
+  split; [reflexivity|]. split; [eauto|]. split.
+  - intros j p Hin. rewrite forallb_forall in Hsd. specialize (Hsd _ Hin). cbn in Hsd.
+    destruct p; try discriminate. eauto.
+  - intros i p Hin. rewrite forallb_forall in Hst. specialize (Hst _ Hin). cbn in Hst.
+    destruct p; try discriminate; auto.
+Qed.
+
+Lemma epoch_over_quiescent m s :
+  reachable m s -> epoch_over s = true ->
+  ph s = Stopping /\ shut s = true /\ lclosed s = true /\
+  Forall (fun w => w_pc w = CDone) (workers s) /\ wg s = 0 /\
+  (forall j p, In (j, p) (sds s) -> exists r, p = SdDone r).
+Proof.
+  intros Hr Ho. destruct (epoch_over_inv s Ho) as (Hp & [v Hv] & Hsd & _).
+  pose proof (inv_reachable m s Hr) as HI.
+  assert (Hs : shut s = true) by (rewrite (i_shut s HI), Hv; reflexivity).
+  destruct (closed_implies_drained m s Hr Hs) as (HF & Hwg & _).
+  repeat split; try assumption. apply (i_stop_l s HI Hp).
+Qed.
+
+Lemma reachable_step m s l s' : reachable m s -> step s l = Some s' -> reachable m s'.
+Proof.
+  intros [ls H] Hs. exists (ls ++ [l]). rewrite run_app, H. cbn. rewrite Hs. reflexivity.
+Qed.
+
+(* every state reached with any number of restarts is a reachable state of a
+   single life: all the theorems about reachable states hold in every life *)
+Lemma reachable_r_reachable m s : reachable_r m s -> exists m', reachable m' s.
+Proof.
+  induction 1 as [|s l s' _ [m' IH] Hs|s _ _ _].
+  - exists m. exists []. reflexivity.
+  - exists m'. eapply reachable_step; eassumption.
+  - exists (md s). exists []. reflexivity.
+Qed.
+
+Lemma returns_after_handlers_r m s j :
+  reachable_r m s -> In (j, SdDone ResNil) (sds s) ->
+  Forall (fun w => w_pc w = CDone) (workers s) /\ wg s = 0 /\
+  (exists v, serve s = SClosing v \/ serve s = SReturned v).
+Proof.
+  intros Hr Hj. destruct (reachable_r_reachable m s Hr) as [m' Hr']. exact (returns_after_handlers m' s j Hr' Hj).
+Qed.
+
+Lemma run_lives_reachable_r m : forall lives s s',
+  reachable_r m s -> run_lives s lives = Some s' -> reachable_r m s'.
+Proof.
+  assert (Hrun : forall ls s s', reachable_r m s -> run s ls = Some s' -> reachable_r m s').
+  { induction ls as [|l ls IH]; cbn; intros s s' Hr H; [inversion H; subst; assumption|].
+    destruct (step s l) as [s1|] eqn:E; [|discriminate]. apply (IH s1); [eapply rr_step; eassumption|assumption]. }
+  induction lives as [|e t IH]; cbn; intros s s' Hr H; [inversion H; subst; assumption|].
+  destruct (run s e) as [s1|] eqn:E; [|discriminate].
+  pose proof (Hrun e s s1 Hr E) as Hr1.
+  destruct t as [|e2 t2]; [inversion H; subst; assumption|].
+  destruct (epoch_over s1) eqn:Eo; [|discriminate].
+  apply (IH (restart s1)); [apply rr_restart; assumption|assumption].
+Qed.
+
+(* in no life is a handler entered after a Shutdown call of THAT life returned nil *)
+Lemma no_handler_after_return_lives m lives ls1 j ls2 s s' c :
+  run_lives (init m) lives = Some s -> epoch_over s = true ->
+  run (restart s) (ls1 ++ SdReturn j ResNil :: ls2) = Some s' -> ~ In (HEnter c) ls2.
+Proof. intros _ _ H. exact (no_handler_after_return (md s) ls1 j ls2 s' c H). Qed.
+
+(* after a restart a start call succeeds and the new life has nothing of the old one *)
+Lemma restart_startable s i :
+  exists s1 s2, step (restart s) (StInvoke i) = Some s1 /\ step s1 (StAtomic i) = Some s2 /\
+                ph s2 = Running /\ serve s2 = SInit /\ workers s2 = [] /\ wg s2 = 0 /\ shut s2 = false /\
+                sds s2 = [] /\ lclosed s2 = false /\ pcdl s2 = false.
+Proof.
+  unfold restart. cbn [step init sts find_a]. eexists. eexists. split; [reflexivity|].
+  cbn. rewrite Nat.eqb_refl. cbn. repeat split.
+Qed.
+
+(* two lives of a UDP server, a handler in flight at each Shutdown *)
+Definition ex_life (p : nat) : list label :=
+  [StInvoke 0; StAtomic 0; Notify; SCheck; SSetDlL; SPacket p; SSpawn; SCheck; SSetDlL; HEnter p;
+   SdInvoke 0; SdAtomic 0; SReadErr; SErrCheck; Reply p; HExit p; WFinish p; SWaitDone; SdReturn 0 ResNil; SReturn RNil].
+Example ex_two_lives :
+  exists s, run_lives (init UDP) [ex_life 1; ex_life 1] = Some s /\ epoch_over s = true /\
+            In (0, SdDone ResNil) (sds s) /\ length (workers s) = 1.
+Proof. match goal with |- exists s, ?r = Some s /\ _ => remember r as rr eqn:E; vm_compute in E; subst rr end. eexists. split; [reflexivity|]. cbn. auto. Qed.
+Example ex_epoch_over :
+  exists s, run (init UDP) (ex_life 1) = Some s /\ epoch_over s = true.
+Proof. match goal with |- exists s, ?r = Some s /\ _ => remember r as rr eqn:E; vm_compute in E; subst rr end. eexists. split; reflexivity. Qed.
+(* the acceptor for lives: two lives are accepted; a second life whose Shutdown
+   returns while its handler runs is rejected at that event; a restart while
+   the first life's Shutdown call has not returned is refused *)
+Example ex_accepts_lives :
+  accepts_lives UDP [[StInvoke 0; Notify; SPacket 1; HEnter 1; SdInvoke 0; Reply 1; SReadErr; HExit 1; SdReturn 0 ResNil; SReturn RNil];
+                     [StInvoke 0; Notify; SPacket 1; HEnter 1; SdInvoke 0; SReadErr; Reply 1; HExit 1; SdReturn 0 ResNil; SReturn RNil]] 0 = LOk
+  /\ accepts_lives UDP [[StInvoke 0; Notify; SdInvoke 0; SReadErr; SdReturn 0 ResNil; SReturn RNil];
+                        [StInvoke 0; Notify; SPacket 1; HEnter 1; SdInvoke 0; SdReturn 0 ResNil]] 0 = LRej 1 5
+  /\ accepts_lives TCP [[StInvoke 0; Notify; SdInvoke 0; SAcceptErr; SReturn RNil]; [StInvoke 0; Notify]] 0 = LNotOver 0.
+Proof. vm_compute. repeat split. Qed.
